@@ -68,6 +68,10 @@ _MIN_STATE.update({f"stateful_ops:{w}:depth2": 20 for w in _FIBER_FORMS[:4]})
 _MIN_STATE.update({f"history_steps:{h}": 200 for h in _HISTORY_KINDS})
 _MIN_STATE.update({"stateful_ops": 5000, "stateful_ops:left": 4000, "stateful_ops:right": 1000, "stateful_ops:kernel": 50,
                    "history_steps_judged": 1500, "result_wellformed_checked": 10000})
+# operator sequences (value-returning operator, then an in-place form on its result / on an operand)
+_MIN_SEQ = {"chain_sequences": 8000, "chain_sequences:result": 4000, "chain_sequences:operand": 4000,
+            "chain_sequences:identity-operand": 3000, "fiber_sequences": 800, "fiber_sequences:identity-element": 150}
+_MIN_SEQ.update({f"fiber_sequences:{o}:{d}": 200 for o in "+*" for d in ("result", "operand")})
 _MIN_CE = {f"ce:Payload.__{m}__": 10 for m in _PAYLOAD_METHODS}
 _MIN_CE.update({f"ce:CoordPayload.__{m}__": 10 for m in _ELEM_METHODS})
 
@@ -79,11 +83,17 @@ SPEC = {
              "large) + random int/float pairs; hand-built elements sit at coordinates chosen independently of their values "
              "(every element-element value pair x operator under a fixed set of coordinate pairs: equal / different, ints / "
              "tuples, a coordinate equal to the other value; one-element kinds rotate through the same set; random "
-             "coordinates for the random pairs); (ii) fibers: every ordered pair of 3-state (absent / explicit default / value) "
+             "coordinates for the random pairs); operator SEQUENCES r = x op y followed by an in-place form {+= *= -= <<=} "
+             "with a scalar or boxed operand, applied to the result r or to an operand, for every arithmetic operator x "
+             "operand kind x ordered value pair (+ random pairs that include the identities 0 / 1): afterwards r, x and y "
+             "must hold what the same program on the values gives; (ii) fibers: every ordered pair of 3-state (absent / explicit default / value) "
              "leaf fibers over {0..3} under + * += *=, every 3-state fiber x scalar x shape/active-range variant under "
              "f+s s+f f*s s*f f+=s f*=s, random longer / empty / disjoint fibers with non-zero defaults, explicit "
              "defaults, declared shape wider than the active range, partitions made by splitUniform, tensor-owned roots, "
-             "depth-2 trees; fiber operands are fresh or carry a HISTORY of 1-3 earlier public operations on the same fiber "
+             "depth-2 trees; SEQUENCES h = f op g (op in + *) followed by h *= s or f *= s on default-0 compressed operands "
+             "(every ordered pair of 2-state fibers over {0..3} whose right values include the identity 1, + about half of "
+             "the random default-0 pairs): h, f and g must hold what the element-wise definition gives for the sequence; "
+             "fiber operands are fresh or carry a HISTORY of 1-3 earlier public operations on the same fiber "
              "(setSavedPos to a valid position, shortcut lookups getPayload/getPayloadRef/getPosition with start_pos, an "
              "iteration resumed at a start_pos, an earlier in-place product or sum with another fiber - judged like any other - "
              "an earlier populate loop, an earlier f *= scalar) on either operand of every form; every 3-state left fiber over "
@@ -107,14 +117,14 @@ SPEC = {
                        "elem_pairs:same-coord": 1000, "elem_pairs:distinct-coords": 3000,
                        "elem_pairs:distinct-coords:equal-values": 300, "elem_single:coord-varied": 2000,
                        "kernel_element_pairs": 800, "kernel_element_pairs:distinct-coords": 600,
-                       "kernel_element_pairs:distinct-coords:equal-values": 60}, **_MIN_CE, **_MIN_STATE),
+                       "kernel_element_pairs:distinct-coords:equal-values": 60}, **_MIN_CE, **_MIN_STATE, **_MIN_SEQ),
         "thorough": dict({"evaluations": 40000, "oracle_evals": 600000, "contract_evals": 400000,
                           "contract_evals:optable": 50000, "contract_evals:fiber": 100000,
                           "contract_evals:kernel": 20000, "fiber_ops_checked": 100000,
                           "elem_pairs:same-coord": 5000, "elem_pairs:distinct-coords": 15000,
                           "elem_pairs:distinct-coords:equal-values": 1000, "elem_single:coord-varied": 10000,
                           "kernel_element_pairs": 8000, "kernel_element_pairs:distinct-coords": 6000,
-                          "kernel_element_pairs:distinct-coords:equal-values": 600}, **_MIN_CE,
+                          "kernel_element_pairs:distinct-coords:equal-values": 600}, **_MIN_CE, **_MIN_SEQ,
                          **{k: 3 * v for k, v in _MIN_STATE.items()}),
     },
     "assumptions": [
@@ -127,7 +137,13 @@ SPEC = {
         "from the two values only, whatever coordinates (ints or tuples of ints) the elements sit at; the coordinate "
         "carried by a result element is not judged",
         "results are compared after unboxing, with type-strict equality (1 and 1.0 differ); the box/no-box form of a "
-        "value-returning result and non-aliasing of operands are C10's, not judged here",
+        "value-returning result and the identity of the objects are C10's, not judged here; what IS judged is values: in "
+        "an operator sequence (value-returning operator, then an in-place form on its result or on one of its operands) "
+        "every box / fiber involved must hold afterwards what the same sequence on the underlying values gives (numbers "
+        "are values: `r = a * b; r += c` leaves a and b alone, `a += c` leaves an earlier r alone); a sequence whose "
+        "first step raises or returns no box is not continued (the operator table judges that step); fiber sequences "
+        "use default-0 compressed (not format-U) operands and scale by a non-zero scalar; an empty (0) element of a sum "
+        "stays empty under the scaling",
         "fibers: ordered/unique leaf fibers with integer coordinates, all stored coordinates inside the shape; "
         "when no shape is declared the shape used by f+s is the documented estimate (largest stored coordinate + 1)",
         "an empty coordinate has the fiber's default as its value (class docstring); 'stored elements' scaled by f*s are the "
@@ -380,6 +396,10 @@ def ensure_contracts():
 VA = [1, -2, 0.5, 3]
 VB = [4, 2.0, -1, 6]
 SCALARS = [-2, 0, 1, 3, 0.5]
+VB_ID = [1, 2.0, -1, 1]         # right-operand values of the operation-sequence pairs: include the identity of *
+CHAIN_SCALARS = [3, -2, 0.5, 10]
+# in-place forms applied after a value-returning operator (to its result, or to one of its operands) and their operand
+CHAIN_THEN = [("+=", 5), ("*=", 4), ("-=", 0.5), ("<<=", 100)]
 
 
 def _vec_spec(vec, values, default=0):
@@ -410,6 +430,16 @@ def generate(rng, tier, shard, nshards, mon):
                     yield {"kind": "optable", "form": "inplace", "op": sym, "okind": kind, "a": a, "bs": vals,
                            "coords": _coords_for(kind, idx)}
                 idx += 1
+    # operator SEQUENCES: r = x op y, then an in-place form on r (or on an operand): every value-returning arithmetic
+    # operator x operand kind x ordered value pair x in-place form
+    for sym, _, _ in BIN:
+        for kind in BIN_KINDS:
+            for a in vals:
+                if idx % nshards == shard:
+                    yield {"kind": "chain", "op": sym, "okind": kind, "a": a, "bs": vals, "rot": idx,
+                           "coords": _coords_for(kind, idx)}
+                idx += 1
+    mon.exhaustive[f"operator-sequence-table-{len(vals)}x{len(vals)}-values"] = True
     mon.exhaustive[f"operator-table-{len(vals)}x{len(vals)}-values"] = True
     mon.exhaustive[f"element-element-table-{len(vals)}x{len(vals)}-values-x-{len(COORD_PAIRS)}-coordinate-pairs"] = True
     # (ii) fibers: all ordered pairs of 3-state leaf fibers over {0..3} ----------------------------
@@ -423,6 +453,18 @@ def generate(rng, tier, shard, nshards, mon):
                              "shape": [None, 4, 6][idx // nshards % 3]}}
             idx += 1
     mon.exhaustive["fiber-pairs-3state-n4"] = True
+    # operation sequences on fibers: every ordered pair of 2-state fibers over {0..3} whose values include the
+    # identities of the two operators (0 is the empty value; 1), followed by an in-place scaling (see _ff_chain)
+    vecs01 = list(itertools.product((0, 2), repeat=4))
+    for va in vecs01:
+        for vb in vecs01:
+            if idx % nshards == shard:
+                yield {"kind": "ff", "chain_only": True, "s2": CHAIN_SCALARS[idx // nshards % len(CHAIN_SCALARS)],
+                       "a": {"build": "ctor", "spec": _vec_spec(va, VA), "default": 0, "shape": [None, 4, 6][idx // nshards % 3]},
+                       "b": {"build": "ctor", "spec": _vec_spec(vb, VB_ID), "default": 0,
+                             "shape": [None, 4, 6][idx // nshards % 3]}}
+            idx += 1
+    mon.exhaustive["fiber-pairs-2state-n4-then-inplace"] = True
     for va in vecs:
         for s in SCALARS:
             for shape, active in ((None, None), (4, None), (6, None), (6, [1, 3]), (8, [4, 8])):
@@ -503,7 +545,13 @@ def _rand_value(rng):
 
 
 def _random_optable(rng):
-    form = rng.choice(["binary", "binary", "inplace"])
+    form = rng.choice(["binary", "binary", "inplace", "chain"])
+    if form == "chain":
+        a = _rand_value(rng)
+        kind = rng.choice(BIN_KINDS)
+        bs = [_rand_value(rng) for _ in range(4)] + [1, rng.choice([0, -1, 1.0, 2])]
+        return {"kind": "chain", "op": rng.choice(BIN)[0], "okind": kind, "a": a, "bs": bs, "rot": rng.randrange(8),
+                "coords": _rand_coord_pairs(rng, a, bs) if "elem" in kind else None}
     if form == "binary":
         sym = rng.choice(BIN + CMP)[0]
         kind = rng.choice(BIN_KINDS)
@@ -618,7 +666,10 @@ def _random_case(rng):
             for d in (a, b):
                 if "fmt" in d:
                     d["fmt"] = "C"      # format-U operands only when both defaults are 0 (see assumptions)
-        return {"kind": "ff", "a": a, "b": b, "metrics": rng.random() < 0.3 and a.get("shape") is not None}
+        case = {"kind": "ff", "a": a, "b": b, "metrics": rng.random() < 0.3 and a.get("shape") is not None}
+        if default == 0 and "fmt" not in a and "fmt" not in b and rng.random() < 0.5:
+            case["s2"] = rng.choice(CHAIN_SCALARS)      # ... followed by an in-place scaling (see _ff_chain)
+        return case
     if r < 0.75:
         return {"kind": "fs", "a": _rand_fiber_desc(rng, ext, default), "s": rng.choice(SCALARS + [2, 10, -1, 2.5, 7]),
                 "boxed": rng.random() < 0.25, "metrics": rng.random() < 0.2}
@@ -822,6 +873,9 @@ def run_case(case, mon):
         if kind == "optable":
             _CUR["phase"] = "optable"
             _run_optable(case, mon)
+        elif kind == "chain":
+            _CUR["phase"] = "optable"
+            _run_chain(case, mon)
         elif kind == "ff":
             _CUR["phase"] = "fiber"
             _run_ff(case, mon)
@@ -959,6 +1013,81 @@ def _run_optable(case, mon):
         mon.nontrivial()
 
 
+# -- operator sequences ---------------------------------------------------------------------
+def _run_chain(case, mon):
+    """r = x op y followed by an in-place form: the same program on the values (numbers are values: an in-place form
+    on one name changes that name only) gives what every box must hold afterwards.
+      direction "result":  r op2= z   -> r holds op2(op(a, b), z); x still holds a, y still holds b
+      direction "operand": x op2= z   -> r still holds op(a, b)   (x: the left operand, else the right one)
+    The first operator itself (value, exceptions, missing operators) is the operator table's matter: a sequence whose
+    first step raises, or does not return a box, is not continued."""
+    sym, okind, a = case["op"], case["okind"], case["a"]
+    ka, kb = okind.split("-")
+    stem, fn = BIN_BY_SYM[sym]
+    coords = case.get("coords") or [[3, 3]]
+    rot = case.get("rot", 0)
+    any_ok = False
+    for j, b in enumerate(case["bs"]):
+        if sym == "<<" and isinstance(b, int) and b > 128:
+            continue
+        rhow, e1 = raw_apply(fn, a, b)
+        if rhow != "ok":
+            continue
+        ca, cb = coords[j % len(coords)]
+        for t, (sym2, z) in enumerate(CHAIN_THEN):
+            for direction in ("result", "operand"):
+                x, y = _mk(ka, a, ca), _mk(kb, b, cb)
+                owner = libname(x) or libname(y)
+                try:
+                    r = fn(x, y)
+                except BaseException:       # noqa  judged by the operator table (and by the postconditions)
+                    mon.count("chain_skipped:first-step-raised")
+                    continue
+                if libname(r) is None:
+                    mon.count("chain_skipped:first-step-result-not-a-box")
+                    continue
+                target = r if direction == "result" else (x if libname(x) else y)
+                if sym2 == "<<=" and isinstance(target, CoordPayload):
+                    continue                # element <<= is judged on its own in the operator table
+                _, fn2, raw2 = INP_BY_SYM[sym2]
+                tv = val(target)
+                zz = Payload(z) if (rot + j + t) % 3 == 0 else z       # the in-place operand: scalar or box
+                h2, e2 = raw_apply(raw2, tv, z)
+                if h2 != "ok":
+                    continue
+                try:
+                    fn2(target, zz)
+                except BaseException:       # noqa  the in-place form itself is the operator table's matter
+                    mon.count("chain_skipped:inplace-step-raised")
+                    continue
+                mon.count("chain_sequences")
+                mon.count("chain_sequences:" + direction)
+                if same(b, 1) or same(a, 1) or same(b, 0) or same(a, 0):
+                    mon.count("chain_sequences:identity-operand")
+                shown = f"r = {ka}({a!r}) {sym} {kb}({b!r}); {'r' if direction == 'result' else 'operand'} {sym2} {z!r}"
+                any_ok = True
+                if direction == "result":
+                    mon.check(same(val(r), e2), f"{owner}.{sym}:then-inplace-on-result:value",
+                              f"{shown}: r holds {val(r)!r}, the values give {e2!r}")
+                    okx = libname(x) is None or same(val(x), a)
+                    oky = libname(y) is None or same(val(y), b)
+                    mon.check(okx and oky, f"{owner}.{sym}:operand-changed-by-later-inplace-on-result",
+                              f"{shown}: the operands now hold {val(x)!r}, {val(y)!r} (they held {a!r}, {b!r}): "
+                              f"the result of {sym} is not a value of its own")
+                else:
+                    mon.check(same(val(r), e1), f"{owner}.{sym}:result-changed-by-later-inplace-on-operand",
+                              f"{shown}: r now holds {val(r)!r}, {a!r} {sym} {b!r} gave {e1!r}")
+                    mon.check(same(val(target), e2), f"{owner}.{sym}:then-inplace-on-operand:value",
+                              f"{shown}: the operand holds {val(target)!r}, the values give {e2!r}")
+                if zz is not z:
+                    mon.check(same(val(zz), z), f"{owner}.{sym2}:boxed-operand-changed",
+                              f"{shown}: the boxed right operand of {sym2} now holds {val(zz)!r}")
+                mon.count("oracle_evals", 2)
+    if any_ok:
+        mon.nontrivial()
+        mon.state(("chain", sym, okind, repr(a)))
+
+
 # -- fibers -------------------------------------------------------------------------------
 def _nz(*defaults):
     return ":nonzero-default" if any(d != 0 for d in defaults) else ""
@@ -1083,11 +1212,62 @@ def _ff_once(mon, sym, inplace, a, b, da, db, met=False, history_step=False):
     return bool(ma and mb and any(v != da for v in exp.values()))
 
 
+def _ff_chain(mon, sym, direction, a, b, s):
+    """h = a op b followed by an in-place scaling by the scalar s (default-0 operands):
+      direction "result":  h *= s  -> h holds the scaled sum / product; a and b hold what they held
+      direction "operand": a *= s  -> h still holds the sum / product
+    Expected contents from the operands' raw lists read before the sequence."""
+    what = f"Fiber.{sym}fiber"
+    if not (_wellformed(a) and _wellformed(b)):
+        return None
+    ma, _ = raw_map(a)
+    mb, _ = raw_map(b)
+    na, nb = _nonempty(ma, 0), _nonempty(mb, 0)
+    if sym == "+":
+        exp1 = {c: ma.get(c, 0) + mb.get(c, 0) for c in na | nb}
+    else:
+        exp1 = {c: ma[c] * mb[c] for c in na & nb}
+
+    def region(c, na=na, nb=nb):
+        return "both" if (c in na and c in nb) else "self-only" if c in na else "other-only" if c in nb else "neither"
+    loose = _loose_coords(ma, 0) | _loose_coords(mb, 0)
+    ok, h = _call(mon, what, lambda: (operator.add if sym == "+" else operator.mul)(a, b))
+    if not ok or not isinstance(h, Fiber) or not _wellformed(h):
+        return None                 # judged where the form is run on its own
+    target = h if direction == "result" else a
+    ok, _ = _call(mon, "Fiber.*=scalar", lambda: operator.imul(target, s))
+    if not ok:
+        return None
+    mon.count("fiber_sequences")
+    mon.count(f"fiber_sequences:{sym}:{direction}")
+    if any(same(mb[c], 1) for c in (na & nb)):
+        mon.count("fiber_sequences:identity-element")
+    same_map = lambda m1, m2: set(m1) == set(m2) and all(same(m1[c], m2[c]) for c in m1)     # noqa
+    ma2, _ = raw_map(a)
+    mb2, _ = raw_map(b)
+    if direction == "result":
+        _judge_fiber(mon, f"{what}:then:*=scalar", h, {c: (v * s if v != 0 else v) for c, v in exp1.items()}, region, 0, "", "", loose)
+        mon.check(same_map(ma, ma2) and same_map(mb, mb2), f"{what}:operand-changed-by-later-inplace-on-result",
+                  f"h = f {sym} g; h *= {s!r} changed an operand: f {ma} -> {ma2}, g {mb} -> {mb2}")
+    else:
+        _judge_fiber(mon, f"{what}:result-changed-by-later-inplace-on-operand", h, exp1, region, 0, "", "", loose)
+        mon.check(same_map(mb, mb2), f"{what}:then:*=scalar:other-operand-changed",
+                  f"h = f {sym} g; f *= {s!r} changed g: {mb} -> {mb2}")
+    return bool(exp1)
+
+
 def _run_ff(case, mon):
     da, db = case["a"].get("default", 0), case["b"].get("default", 0)
     met = bool(case.get("metrics"))
     nontrivial = False
-    for sym, inplace in (("+", False), ("*", False), ("+", True), ("*", True)):
+    if case.get("s2") is not None and da == 0 and db == 0:
+        for sym in ("+", "*"):
+            for direction in ("result", "operand"):
+                a, _, ka = build_fiber(case["a"], mon)
+                b, _, kb = build_fiber(case["b"], mon)
+                if _ff_chain(mon, sym, direction, a, b, case["s2"]):
+                    nontrivial = True
+    for sym, inplace in (() if case.get("chain_only") else (("+", False), ("*", False), ("+", True), ("*", True))):
         a, _, ka = build_fiber(case["a"], mon)
         b, _, kb = build_fiber(case["b"], mon)
         if _ff_once(mon, sym, inplace, a, b, da, db, met):
